@@ -169,6 +169,10 @@ def lift(x):
     raise TypeError('cannot lift %r' % type(x))
 
 
+def _nonfinite(x):
+    return isinstance(x, float) and (x != x or x in (float('inf'), float('-inf')))
+
+
 class SymBool(object):
     def __init__(self, e):
         self.e = e
@@ -219,16 +223,20 @@ class SymReal(object):
     def __neg__(a): return SymReal(-a.e)
     def __pos__(a): return a
     def __abs__(a): return SymReal(z3.If(a.e >= 0, a.e, -a.e))
-    def __lt__(a, b): return SymBool(a.e < lift(b))
-    def __le__(a, b): return SymBool(a.e <= lift(b))
-    def __gt__(a, b): return SymBool(a.e > lift(b))
-    def __ge__(a, b): return SymBool(a.e >= lift(b))
+    def __lt__(a, b): return (0.0 < b) if _nonfinite(b) else SymBool(a.e < lift(b))
+    def __le__(a, b): return (0.0 <= b) if _nonfinite(b) else SymBool(a.e <= lift(b))
+    def __gt__(a, b): return (0.0 > b) if _nonfinite(b) else SymBool(a.e > lift(b))
+    def __ge__(a, b): return (0.0 >= b) if _nonfinite(b) else SymBool(a.e >= lift(b))
     def __eq__(a, b):
+        if _nonfinite(b):
+            return False           # a real number never equals inf / nan
         try:
             return SymBool(a.e == lift(b))
         except TypeError:
             return False
     def __ne__(a, b):
+        if _nonfinite(b):
+            return True
         try:
             return SymBool(a.e != lift(b))
         except TypeError:
